@@ -71,6 +71,7 @@ class Interproc:
         self.nowrap = None
         self.establishers = {}         # body id -> clause names it establishes unconditionally ({true} f {clause}); assumed at call sites
         self._inv_cache = {}
+        self._cparam_cache = {}
         self.entry_assume = None       # fn(body) -> {clause name: [(a, b, c)]} contracts over parameter terms (see analyse)
         self.clause_results = {}
         self.invariants = []
@@ -290,6 +291,63 @@ class Interproc:
             return self.cg.impl_candidates(c["path"])
         return []
 
+    # ------------------------------------------------------------------ const-generic specialisation
+    # A body that mentions a const generic parameter (`SauceString<LEN, EMPTY>::read`) is analysed once per instantiation that
+    # a call site names with literal arguments; the specialised analysis lives under the key `<body id>#[35,32]`.
+    @staticmethod
+    def base(key):
+        return key.split("#[", 1)[0]
+
+    @staticmethod
+    def cargs_of(key):
+        if "#[" not in key:
+            return {}
+        out = {}
+        for i, tok in enumerate(key.split("#[", 1)[1].rstrip("]").split(",")):
+            if tok != "?":
+                out[i] = int(tok)
+        return out
+
+    def uses_cparams(self, bid):
+        c = self._cparam_cache.get(bid)
+        if c is None:
+            b = self.f.bodies.get(bid)
+            c = False
+            if b is not None:
+                import json as _json
+                c = '"cparam_index"' in _json.dumps(b.blocks)
+            self._cparam_cache[bid] = c
+        return c
+
+    def spec_key(self, cid, t, an):
+        """key of the specialised analysis of callee `cid` for call terminator `t`, or `cid` itself"""
+        if not self.uses_cparams(cid):
+            return cid
+        ga = (t["callee"].get("gargs") or "").strip()
+        if not (ga.startswith("[") and ga.endswith("]")):
+            return cid
+        toks = [x.strip() for x in ga[1:-1].split(",")] if ga[1:-1].strip() else []
+        vals = []
+        import re as _re
+        for i, tok in enumerate(toks):
+            m = _re.fullmatch(r"(-?\d+)_[iu](8|16|32|64|128|size)", tok)
+            if m:
+                vals.append(m.group(1))
+                continue
+            m = _re.fullmatch(r"(true|false)", tok)
+            if m:
+                vals.append("1" if tok == "true" else "0")
+                continue
+            # the caller's own const parameter passed through
+            m = _re.fullmatch(r"(\w+)(/#(\d+))?", tok)
+            if m and an is not None and an.cargs and m.group(3) is not None and int(m.group(3)) in an.cargs:
+                vals.append(str(an.cargs[int(m.group(3))]))
+                continue
+            vals.append("?")
+        if not any(v != "?" for v in vals):
+            return cid
+        return "%s#[%s]" % (cid, ",".join(vals))
+
     # ------------------------------------------------------------------ summaries
     def summary(self, bid):
         s = self.sum.get(bid)
@@ -348,11 +406,11 @@ class Interproc:
         return rounds
 
     def analyse(self, bid):
-        b = self.f.bodies[bid]
+        b = self.f.bodies[self.base(bid)]
         s = Summary()
         self.in_progress.add(bid)
         # make sure callee summaries exist first (bottom-up), keeping the analyzer's per-body state intact
-        for cid in sorted(self.cg.callees(bid)):
+        for cid in sorted(self.cg.callees(self.base(bid))):
             if cid not in self.sum and cid not in self.in_progress and self.f.bodies[cid].kind in ("fn", "method"):
                 self.analyse(cid)
         an = Analyzer(self.f, interproc=self)
@@ -360,6 +418,7 @@ class Interproc:
         an.watch = self.watch
         an.invariants = self.invariants
         an.nowrap = self.nowrap
+        an.cargs = self.cargs_of(bid)
         an.mag = getattr(self, "mag", False)
         if an.mag:
             cfg = getattr(self, "mag_cfg", {})
@@ -395,6 +454,7 @@ class Interproc:
                     an2 = Analyzer(self.f, interproc=self)
                     an2.invariants = self.invariants
                     an2.nowrap = self.nowrap
+                    an2.cargs = self.cargs_of(bid)
                     absdom.MAX_PARAM = b.argc
                     res2 = an2.analyze(b, entry=st0, collect=False)
                     for xb in b.exits:
@@ -900,7 +960,7 @@ class Interproc:
         for cid in cands:
             if self.f.bodies[cid].kind not in ("fn", "method", "closure"):
                 continue
-            sums.append((cid, self.summary(cid)))
+            sums.append((cid, self.summary(self.spec_key(cid, ctx.t, an) if len(cands) == 1 else cid)))
         # 0. which of the callee's contract clauses hold before the call? (they may be assumed afterwards)
         held = []
         if len(sums) == 1 and sums[0][1] is not None and getattr(sums[0][1], "clauses", None):
